@@ -424,8 +424,13 @@ def enumeration(ctx):
     skip = [x for st in l.body for x in ast.walk(st) if isinstance(x, (ast.Continue, ast.Break, ast.If, ast.IfExp))]
     marks = {C.stmt_node(ctx, fn, x) for x in ext}
     ok = it_ok and rec and ext and not skip and g.must_pass(bs, head, marks) and isinstance(l.target, ast.Name) and all(x.args and norm(x.args[0]) == l.target.id for x in rec)
-    ctx.decide("C01.2", fn, bool(ok), "every entry of the directory is descended into and contributes its files (no filter)",
-               "not every directory entry contributes to the file list (filter, early exit or conditional recursion): a file can be missing from the metafile", l)
+    if not (it_ok and rec):
+        # not the shape this rule reads (a loop over the entries of the directory that calls the listing again for each): the walk
+        # may live in a helper or a generator
+        ctx.undecided("C01.2", fn, "the loop `for %s in %s` is not a walk over a directory listing that descends into every entry; where the tree is walked was not followed" % (norm(l.target), norm(l.iter)[:50]), l)
+    else:
+        ctx.decide("C01.2", fn, bool(ok), "every entry of the directory is descended into and contributes its files (no filter)",
+                   "not every directory entry contributes to the file list (filter, early exit or conditional recursion): a file can be missing from the metafile", l)
     rets = [n for n in own_nodes(fn.node) if isinstance(n, ast.Return) and isinstance(n.value, ast.Tuple) and len(n.value.elts) == 2]
     lists = [r for r in rets if not isinstance(r.value.elts[1], ast.List)]
     single = [r for r in rets if isinstance(r.value.elts[1], ast.List)]
